@@ -130,8 +130,10 @@ func runProp(p *core.Prog, id, tier string, seed int, outDir string, kf []knownF
 		pack.Run(ctx)
 	}()
 	if broken == "" {
-		if v := ctx.VacuityFailures(); len(v) > 0 {
-			broken = "vacuity guard: " + strings.Join(v, "; ")
+		// a rule that no longer finds the constructs it was written for cannot
+		// show its clause: the mechanism it guards is gone from the code.
+		for _, v := range ctx.VacuityFailures() {
+			ctx.Violate("vacuity", v, "-", "the code no longer contains the constructs this rule decides ("+v+"); the structural guarantee cannot be established")
 		}
 	}
 	if broken == "" && len(ctx.Undecided) > 0 {
